@@ -1,53 +1,74 @@
-(* C20: the interleaving model replays the schedule the controlled harness enforced *)
+(* C20: the interleaving model replays the schedule the controlled harness enforced.  Which of the threads released in
+   one round gets the lock first afterwards is not controlled: the model is run for every completion order and all
+   resulting observation tuples are printed as alternatives. *)
 open Model
 open D_base
 
 let rec rep n x = if n <= 0 then [] else x :: rep (n - 1) x
 
+let rec perms = function
+  | [] -> [[]]
+  | l -> List.concat_map (fun x -> List.map (fun p -> x :: p) (perms (List.filter (fun y -> y <> x) l))) l
+
+(* cartesian product of per-round alternatives *)
+let rec product = function
+  | [] -> [[]]
+  | alts :: rest -> let r = product rest in List.concat_map (fun a -> List.map (fun t -> a :: t) r) alts
+
 let run_case (toks : string list) : string option =
   match toks with
-  | ["c20"; _ms; _mf; counts; pre; order; _rounds] ->
+  | ["c20"; _ms; _mf; counts; pre; _rounds] ->
     let counts = List.map int_of_string (split_on ',' counts) in
     let pre = List.mapi (fun i s -> match String.split_on_char '.' s with
         | [r; y; c] -> (i, int_of_string r, int_of_string y, c = "1") | _ -> failwith "pre") (split_on ',' pre) in
-    (* completions: "R0@1" = reader 0 finished when the writer had completed 1 round *)
-    let order = List.map (fun s -> match String.split_on_char '@' s with
-        | [w; at] -> (w.[0], int_of_string (String.sub w 1 (String.length w - 1)), int_of_string at) | _ -> failwith "order") (split_on ',' order) in
     let nrounds = List.length counts in
     let m = fun r -> nat_of_int (List.nth counts (int_of_nat r) + 1) in
     let nthreads = List.length pre in
-    let sys = ref (tinit (nat_of_int nthreads) (nat_of_int nthreads)) in
-    let stepm t = sys := tstep (nat_of_int nrounds) m !sys t in
-    let blocked = Array.make nthreads "--" in
-    List.iteri (fun ri c ->
-        stepm TH;                                         (* acquire *)
-        for seg = 0 to c do
-          stepm TH;                                       (* sub-update *)
-          if seg < c then
-            List.iter (fun (i, r, y, with_c) ->
-                if r = ri && y = seg then begin
-                  let before = !sys in
-                  stepm (TR (nat_of_int i));
-                  let rb = (!sys == before) || (List.nth (rds !sys) i = RIdle) in
-                  let cb = if with_c then begin
-                      stepm (TC (nat_of_int i)); List.nth (cls !sys) i = CIdle end else true in
-                  blocked.(i) <- (if rb then "1" else "0") ^ (if cb then "1" else "0")
-                end) pre
-        done;
-        stepm TH;                                         (* release *)
-        (* threads that completed after this round, in the observed order *)
-        List.iter (fun (k, i, at) ->
-            if at = ri + 1 then
-              (match k with
-               | 'R' -> List.iter stepm (rep 3 (TR (nat_of_int i)))
-               | _ -> List.iter stepm (rep 3 (TC (nat_of_int i))))) order
-      ) counts;
-    let ob = List.map (fun ((_, b), r) -> Printf.sprintf "%d-%d" (int_of_nat b) (int_of_nat r)) (obs !sys) in
-    let fin = Printf.sprintf "%d-%d" (int_of_nat (base !sys)) nrounds in
-    let ord = List.map (fun (k, i, at) -> Printf.sprintf "%c%d@%d" k i at) order in
-    Some (Printf.sprintf "blocked=%s order=%s obs=%s final=%s"
-            (if nthreads = 0 then "-" else String.concat "," (Array.to_list blocked))
-            (if ord = [] then "-" else String.concat "," ord)
-            (if ob = [] then "-" else String.concat ";" ob) fin)
+    (* threads released in round ri (their yield point exists in that round) *)
+    let released ri = List.concat_map (fun (i, r, y, with_c) ->
+        if r = ri && y < List.nth counts ri then ((`R, i) :: (if with_c then [(`C, i)] else [])) else []) pre in
+    let per_round = List.mapi (fun ri _ -> perms (released ri)) counts in
+    let run_one (orders : ([`R | `C] * int) list list) =
+      let sys = ref (tinit (nat_of_int nthreads) (nat_of_int nthreads)) in
+      let stepm t = sys := tstep (nat_of_int nrounds) m !sys t in
+      let blocked = Array.make nthreads "--" in
+      List.iteri (fun ri c ->
+          stepm TH;
+          for seg = 0 to c do
+            stepm TH;
+            if seg < c then
+              List.iter (fun (i, r, y, with_c) ->
+                  if r = ri && y = seg then begin
+                    stepm (TR (nat_of_int i));
+                    let rb = List.nth (rds !sys) i = RIdle in
+                    let cb = if with_c then begin stepm (TC (nat_of_int i)); List.nth (cls !sys) i = CIdle end else true in
+                    blocked.(i) <- (if rb then "1" else "0") ^ (if cb then "1" else "0")
+                  end) pre
+          done;
+          stepm TH;
+          List.iter (fun (k, i) ->
+              match k with
+              | `R -> List.iter stepm (rep 3 (TR (nat_of_int i)))
+              | `C -> List.iter stepm (rep 3 (TC (nat_of_int i)))) (List.nth orders ri)) counts;
+      (* threads whose yield point was never reached are released at the very end, readers first *)
+      List.iter (fun (i, r, y, with_c) ->
+          if not (r < nrounds && y < List.nth counts r) then begin
+            List.iter stepm (rep 3 (TR (nat_of_int i)));
+            if with_c then List.iter stepm (rep 3 (TC (nat_of_int i)))
+          end) pre;
+      (* observations are appended in completion order: recover the reader index from the order of completion *)
+      let completion = List.concat (List.mapi (fun ri _ -> List.filter_map (fun (k, i) -> if k = `R then Some i else None) (List.nth orders ri)) counts)
+                       @ List.filter_map (fun (i, r, y, _) -> if not (r < nrounds && y < List.nth counts r) then Some i else None) pre in
+      let ob = Array.make nthreads "-" in
+      List.iteri (fun k ((_, b), r) ->
+          match List.nth_opt completion k with
+          | Some i -> ob.(i) <- Printf.sprintf "%d-%d" (int_of_nat b) (int_of_nat r)
+          | None -> ()) (obs !sys);
+      let fin = Printf.sprintf "%d-%d" (int_of_nat (base !sys)) nrounds in
+      (String.concat "," (Array.to_list blocked), String.concat ";" (Array.to_list ob) ^ "~" ^ fin) in
+    let results = List.map run_one (product per_round) in
+    let blocked = match results with (b, _) :: _ -> b | [] -> "-" in
+    let alts = List.sort_uniq compare (List.map snd results) in
+    Some (Printf.sprintf "blocked=%s alts=%s" (if nthreads = 0 then "-" else blocked) (String.concat "!" alts))
   | "c20stress" :: _ -> Some "bad=0"
   | _ -> None
